@@ -497,13 +497,22 @@ class MixMeas:
 
 
 class UObs:
+    """duck-typed observation with the identifying fields of the real Observation row (simultaneous observations share the epoch; whether they
+    also share the sensor is a parameter of the obligation - the filter API takes any list)"""
     julian_date = 2459000.5
     sensor_eci = np.zeros(6)
+    target_id = 11
+    sensor_type = "AdvRadar"
 
-    def __init__(self, comps, R, y):
+    def __init__(self, comps, R, y, sensor_id=21):
         self.measurement = MixMeas(comps)
         self.r_matrix = R
         self.measurement_states = y
+        self.sensor_id = sensor_id
+
+    def _sensor_of(cfg, i):
+        ids = cfg.get("sensor_ids")
+        return ids[i] if ids else 21 + i
 
 
 def _isangle(kind):
@@ -643,7 +652,7 @@ class Scene:
 
                 comps.append((kind, f))
                 y.append((o["y"][j] + o["c"][j] if rotate else o["y"][j]) + TWOPI_F * o["ky"][j])
-        return UObs(comps, o["R"], np.array(y, dtype=object))
+        return UObs(comps, o["R"], np.array(y, dtype=object), UObs._sensor_of(self.cfg, i))
 
     def rows(self, order=None):
         """stacked rows (obs index, comp index, kind) in the order the filter stacks them"""
@@ -757,7 +766,7 @@ def _concrete_obs(d, i, holder, shifted=False, rotate=True):
             comps.append((kind, _CField(holder, e["th"][j], e["k"][j] if shifted else None, e["c"][j], rotate)))
             y.append(e["y"][j] + (((e["c"][j] if rotate else 0.0) + 2 * math.pi * e["ky"][j]) if shifted else 0.0))
     Lr = np.array(e["Lr"], dtype=float)
-    return UObs(comps, Lr @ Lr.T, np.array(y, dtype=float))
+    return UObs(comps, Lr @ Lr.T, np.array(y, dtype=float), UObs._sensor_of(d["cfg"], i))
 
 
 def _concrete_update(d, order, shifted=False, rotate=True, history=True):
@@ -778,6 +787,11 @@ def _cmp_posterior(fa, fb, perm=None, tol=1e-6):
     """max scaled differences of innovation / est_x / est_p of two concrete filters (perm: row permutation of b wrt a)"""
     ia, ib = np.asarray(fa.innovation, dtype=float), np.asarray(fb.innovation, dtype=float)
     if perm is not None:
+        if ia.shape != ib.shape or len(np.atleast_1d(ib)) != len(perm):
+            # not one innovation row per listed observation component: the posteriors are judged, the innovation is reported as it is
+            errs = {"innovation_rows": [int(np.size(ia)), int(np.size(ib))], "rows_expected": len(perm),
+                    "est_x": float(np.abs(fa.est_x - fb.est_x).max()), "est_p": float(np.abs(fa.est_p - fb.est_p).max())}
+            return True, errs
         ib = ib[perm]
     sc = max(1.0, np.abs(fa.est_x).max(), np.abs(fa.est_p).max(), np.abs(ia).max())
     errs = {"innovation": float(np.abs(ia - ib).max()), "est_x": float(np.abs(fa.est_x - fb.est_x).max()), "est_p": float(np.abs(fa.est_p - fb.est_p).max())}
@@ -1363,6 +1377,11 @@ def o6_order(rep, cfg, perms):
             kw = dict(inputs=lambda m, sc=sc, fa=fa, perm=perm: sc.inputs(m, fa, {"perm": perm}), replay=replay_order)
             rows_b = [(i, j) for (i, j, _k) in sc.rows(perm)]
             rp = [rows_b.index(x) for x in rows_a]
+            if len(np.atleast_1d(fa.innovation)) != len(rows_a) or len(np.atleast_1d(fb.innovation)) != len(rows_a):
+                # the update did not use one innovation row per listed observation component: refuted at any point of the path
+                rep.prove(f"all-rows-used[{tag},{ptag}]", z3.BoolVal(False), cons + pins, timeout_ms=60000,
+                          sample="update() stacks one innovation row per component of every listed observation", **kw)
+                continue
             g_inn = eq_arrays(fa.innovation, np.asarray(fb.innovation, dtype=object)[rp])
             _two_step(rep, f"innovation-permuted[{tag},{ptag}]", g_inn, [], full, pinned=cons + pins, sample="innovation components follow their observations", **kw)
             for nm in ("est_x", "est_p"):
@@ -1630,9 +1649,16 @@ def _reuse_cases(tier):
     return cases
 
 
+def _same_sensor(cfg):
+    """the same case with every observation taken by one sensor (same sensor id, same epoch, different content)"""
+    return dict(cfg, sensor_ids=[21] * len(cfg["obs"]))
+
+
 def _order_cases(tier):
     cases = [("n1-pos-a0+lin", _cfg(1, "pos", False, [["a0"], ["lin"]]), [[1, 0]]),
-             ("n2-neg-a0+ap-redraw", _cfg(2, "neg", True, [["a0"], ["ap"]]), [[1, 0]])]
+             ("n2-neg-a0+ap-redraw", _cfg(2, "neg", True, [["a0"], ["ap"]]), [[1, 0]]),
+             ("n1-pos-a0+lin-samesensor", _same_sensor(_cfg(1, "pos", False, [["a0"], ["lin"]])), [[1, 0]]),
+             ("n1-pos-lin+lin-samesensor", _same_sensor(_cfg(1, "pos", True, [["lin"], ["lin"]])), [[1, 0]])]
     if tier == "thorough":
         cases += [("n2-pos-ap+lin", _cfg(2, "pos", False, [["ap"], ["lin"]]), [[1, 0]]),
                   ("n1-neg-a0+ap+lin", _cfg(1, "neg", False, [["a0"], ["ap"], ["lin"]]), [[2, 1, 0], [1, 2, 0]]),
